@@ -49,6 +49,11 @@ def check(case, ctx):
     ctx.event("by-name" if case["byname"] else "by-number")
     np.random.seed(case["npseed"])
     A = mod.genhkl_all(B.cell_arg, B.smin, B.smax, **B.kw)
+    if case["npseed"] % 4 == 0 and len(np.asarray(A)) < 400:
+        def _sorted_all(cell, lo, hi, kw):
+            r = np.asarray(mod.genhkl_all(cell, lo, hi, **kw), float)
+            return r[np.lexsort(r.T[::-1])] if len(r) else r
+        ctx.later("%s.genhkl_all(sorted)" % case["mod"], _sorted_all, list(B.cell), B.smin, B.smax, dict(B.kw))
     Ai, integral = HK.rows_to_int(A)
     if Ai is not None:
         try:                      # the caller owns the returned array and may overwrite it (e.g. scale it in place);
